@@ -57,8 +57,14 @@ CHECKS = {
    text="Seeded abstract triple lists rendered to N-Triples, N-Quads, line-oriented Turtle, N3 and RDF/XML with sizes at and around the internal chunk boundaries (999..2500 lines, 8191..8193 triples), comment/blank lines at PRNG-chosen positions, loaded into empty or pre-populated databases (quads, named graphs, pre-filled dictionary), optionally twice, under a simulated rayon pool (size/splits/job order), a simulated CPU count and - for parse_rdf - crossbeam workers running as shuttle threads under a seeded scheduler. Oracle: lexical quads after = before + document triples; catalog unchanged; formats agree.",
    note="'As written' = Kolibrie's storage convention as N-Triples/N-Quads/RDF-XML apply it; N3 literals are a listed known finding and the N3 rendering replaces literal objects by IRIs outside 1 run in 10; RDF/XML uses the rdf:Description subset.",
    technique="deterministic simulation: simulated thread pool, shuttle-scheduled loader workers, simulated CPU count; quad-set oracle"),
+
+ "C02": dict(engine="dbsim-plan", level="exploration", ref="6.1",
+   text="Seeded (dataset, query) pairs from a grammar of the supported fragment, each executed as a baseline and 8-24 variants: patterns permuted inside every BGP, fresh / stale / empty / adversarial statistics installed in cached_stats, every join node of the chosen plan reassigned (all-bind, all-hash, all-nested-loop, mixed), scan kinds swapped, star joins expanded, simulated rayon pool of 1..16 with PRNG-chosen splits and job order, hash seed per variant. Metamorphic oracle: the multiset of decoded rows equals the baseline's; queries never modify data.",
+   note="Decides agreement between plans, not correctness of the common answer (that is C01, not claimed). Plan rewrites go through the public pieces the executor itself uses; FILTER/BIND are group-scoped as the quantifier requires.",
+   technique="deterministic simulation: fault injection on statistics and plan choice, simulated thread pool, metamorphic comparison"),
 }
 ENGINES = [
+  {"name": "dbsim-plan", "path": "sim/ksim-db/src/plan.rs", "serves_properties": ["C02"], "kind_free_text": "query-plan perturbation simulator (statistics, join algorithms, pool, hash seeds)"},
   {"name": "dbsim-load", "path": "sim/ksim-db/src/loader.rs", "serves_properties": ["C13"], "kind_free_text": "document loader simulator (sim-rayon, sim-crossbeam on shuttle, sysconf interposer)"},
   {"name": "dbsim-update", "path": "sim/ksim-db/src/update.rs", "serves_properties": ["C03", "C17"], "kind_free_text": "update-history simulator with reference Update model; hostile-client session simulator"},
   {"name": "dbsim-store", "path": "sim/ksim-db/src/store.rs", "serves_properties": ["C04"], "kind_free_text": "store-API history simulator"},
